@@ -118,7 +118,8 @@ def _ensure_inputs_registered():
     for w, (xyz, q) in list(polyred.unit_hyps_of(c).lead.items()):
         if w not in done:
             done.add(w)
-            new_rotation(list(q))
+            if len(q) == 4:
+                new_rotation(list(q))
 
 
 def new_rotation(q, sigma=1):
